@@ -181,8 +181,8 @@ def run(ctx):
     import tsdate  # noqa: F401
     dating.quiet()
     stats = _stats()
-    kernel_cases(ctx, ctx.n(70, 1400), 1, res, stats)
-    date_cases(ctx, ctx.n(24, 400), 2, res, stats)
+    kernel_cases(ctx, ctx.n(55, 1000), 1, res, stats)
+    date_cases(ctx, ctx.n(18, 300), 2, res, stats)
     res.rule = ("B/C: tskit tree sequences (recombination, polytomies, gaps, flanks, historical and internal samples, "
                 "keep_unary simplification, dead-end branches, sample nodes that are unary, non-integer coordinates; 40% clean "
                 "simulations with a single truncated edge = exactly one unary event, by edge removal or by edge insertion) x "
